@@ -5,7 +5,7 @@ stops the call, so whatever the code does before lexing (today: re.sub(r'[\\s;]+
 Specification: the lexer receives one contiguous piece of the input; what is cut off in front is white space (and, for properties that only speak about accepted statements, semicolons), what is cut off behind is white space and semicolons."""
 import itertools
 
-ALPHABET = ['a', ' ', ';', '\n', "'"]
+ALPHABET = ['a', ' ', ';', '\n', "'", '\r']
 
 
 class _Stop(Exception):
@@ -35,7 +35,7 @@ def lexed_text(sql, dialect):
 def problems(dialect, maxlen, lead_semicolons=False):
     """-> (n evaluated, first problem or None) ; problem = (input, observed text, reason)"""
     n = 0
-    extra = ["a;\nb", "'a;\nb'", "a  \nb", "a\n;\nb;", "a;\n\n b ;\n"]
+    extra = ["a;\nb", "'a;\nb'", "a  \nb", "a\n;\nb;", "a;\n\n b ;\n", "select 'a\r\nb'", "select `a\r\nb` from t\r\n", "select \"a\tb\" ,\t'\x0b\x0c' ;\r\n", "select 'a\u00a0b\u2028c'\u00a0"]
     for s in itertools.chain(extra, (''.join(t) for k in range(0, maxlen + 1) for t in itertools.product(ALPHABET, repeat=k))):
         n += 1
         try:
